@@ -6,6 +6,7 @@ package gabi
 
 import (
 	"slices"
+	"sync"
 
 	"github.com/go-errors/errors"
 	"github.com/privacybydesign/gabi/big"
@@ -22,7 +23,8 @@ type Credential struct {
 	Attributes           []*big.Int          `json:"attributes"`
 	NonRevocationWitness *revocation.Witness `json:"nonrevWitness,omitempty"`
 
-	nonrevCache chan *NonRevocationProofBuilder
+	nonrevCache     chan *NonRevocationProofBuilder
+	nonrevCacheLock sync.Mutex // guards the lazy creation of nonrevCache
 }
 
 // DisclosureProofBuilder is an object that holds the state for the protocol to
@@ -197,11 +199,24 @@ func (ic *Credential) nonrevConsumeBuilder() (*NonRevocationProofBuilder, error)
 	// lest we totally break security: reusing randomizers in a second session makes it possible
 	// for the verifier to compute our revocation witness e from the proofs
 	select {
-	case b := <-ic.nonrevCache:
+	case b := <-ic.nonrevCacheChan(false):
 		return b, b.UpdateCommit(ic.NonRevocationWitness)
 	default:
 		return ic.NonrevBuildProofBuilder()
 	}
+}
+
+// nonrevCacheChan returns the channel holding the cached nonrevocation proof builder (nil if it
+// does not exist yet and create is false). The channel is created lazily, possibly while other
+// goroutines are creating disclosure proofs with the same Credential, so the field must not be
+// read or written without holding the lock.
+func (ic *Credential) nonrevCacheChan(create bool) chan *NonRevocationProofBuilder {
+	ic.nonrevCacheLock.Lock()
+	defer ic.nonrevCacheLock.Unlock()
+	if ic.nonrevCache == nil && create {
+		ic.nonrevCache = make(chan *NonRevocationProofBuilder, 1)
+	}
+	return ic.nonrevCache
 }
 
 // NonrevPrepareCache ensures that the Credential's non-revocation proof builder cache is
@@ -211,13 +226,11 @@ func (ic *Credential) NonrevPrepareCache() error {
 	if ic.NonRevocationWitness == nil {
 		return nil
 	}
-	if ic.nonrevCache == nil {
-		ic.nonrevCache = make(chan *NonRevocationProofBuilder, 1)
-	}
+	cache := ic.nonrevCacheChan(true)
 	var b *NonRevocationProofBuilder
 	var err error
 	select {
-	case b = <-ic.nonrevCache:
+	case b = <-cache:
 		Logger.Trace("updating existing nonrevocation commitment")
 		err = b.UpdateCommit(ic.NonRevocationWitness)
 	default:
@@ -231,7 +244,7 @@ func (ic *Credential) NonrevPrepareCache() error {
 	// put it back in the channel, waiting to be consumed by nonrevConsumeBuilder()
 	// if the channel has already been populated by another goroutine in the meantime we just discard
 	select {
-	case ic.nonrevCache <- b:
+	case cache <- b:
 	default:
 	}
 
